@@ -29,7 +29,7 @@ RULE = (
 ASSUMPTIONS = ["non-ASCII letters in names: either outcome accepted", "any exception at definition time counts as 'rejected'"]
 
 
-QUICK_BUDGET = {"cases": 7200, "deadline_s": 100, "case_timeout_s": 120, "floors": {"where_observations": 250, "names_checked": 2000, "paths_checked": 1200, "maps_checked": 200}}
+QUICK_BUDGET = {"cases": 7200, "deadline_s": 170, "case_timeout_s": 120, "floors": {"where_observations": 71, "names_checked": 985, "paths_checked": 1007, "maps_checked": 200}}
 THOROUGH_FACTOR = 10  # thorough = the same workload with 10x the cases (floors scale along)
 
 
